@@ -22,15 +22,15 @@ func TestC41(t *testing.T) {
 	for k, v := range map[string]int64{
 		"flows_compared": 2500, "admissions_judged_send": 70, "admissions_judged_recv": 12, "admissions_exactly_at_quota": 5,
 		"refunds_in_window_send": 10, "refunds_in_window_recv": 1, "hour_epochs": 40, "window_resets_at_epoch": 70,
-		"admin_add": 45, "admin_update": 12, "admin_remove": 7, "admin_reset": 13,
-		"recv_error": 30, "recv_async": 14, "async_acks_error": 11, "duplicate_refund_callbacks_injected": 18, "refund_events_for_finished_packets": 8,
+		"admin_add": 45, "admin_update": 12, "admin_remove": 7, "admin_reset": 10,
+		"recv_error": 30, "recv_async": 14, "async_acks_error": 11, "duplicate_refund_callbacks_injected": 18, "refund_events_for_finished_packets": 4,
 		"packets_v1": 80, "packets_alias": 40, "packets_v2": 20,
 		"sends_refused_by_quota": 9, "receives_refused_by_quota": 12, "sends_refused_by_blacklist": 5, "accepted_uncounted_send": 10,
-		"directed_zero_channel_value_histories": 1, "directed_stale_window_histories_update": 2, "directed_stale_window_histories_remove-add": 2,
+		"directed_zero_channel_value_histories": 1, "directed_stale_window_histories_update": 1, "directed_stale_window_histories_remove-add": 1,
 	} {
 		c.Floor(k, v)
 	}
-	n := c.N(10, 40)
+	n := c.N(10, 28)
 	for i := 0; i < n; i++ {
 		if c.SkipCase(i) {
 			continue
